@@ -173,14 +173,40 @@ let plain_class (st : state) (path : str) : (str list * str) option =
     (match List.rev names with c :: up -> Some (List.rev up, c) | [] -> None)
   else None
 
+(* how many entries of the outcome list the transfer loop of a copy of `left` bytes takes: one per
+   sendfile call, until nothing is left or a call fails / moves nothing (FsModel.xfer_loop) *)
+let rec xfer_used (orc : xfer list) (left : int) : int =
+  if left <= 0 then 0 else
+  match orc with
+  | [] -> 0
+  | XFail :: _ -> 1
+  | XAtMost n :: t -> let k = min (int_of_nat n) left in if k = 0 then 1 else 1 + xfer_used t (left - k)
+
+(* the model's prediction of the harness probe x: the loop is reached exactly when the copy succeeds with
+   every transfer complete; it then starts with the size of the source *)
+let copy_used (orc : xfer list) (st : state) (a : str) (b : str) (fie : bool) : int =
+  if orc = [] || not (snd (f_copy_o [] st a b fie)) then 0 else
+  match resolve st true a with
+  | WAt (d, nm, Some SFile) -> xfer_used orc (List.length (content_at st.root (d @ [nm])))
+  | _ -> 0
+
+(* was the armed fault consumed: the oracle was Some _ before the operation and is None after it *)
+let fired (o : faults) (o' : faults) : bool = match o, o' with Some _, None -> true | _ -> false
+
 let fs_op (mode : [`Model | `Spec]) (st : state) toks : state =
-  let fin ?(pre = []) ?(post = []) st' res =
+  (* ~cond:true (Spec mode only): the operation ran with an injected outcome / an armed fault.  The text
+     fixes the outcome only as far as the fault is not consumed: the line carries the fault-free
+     expectation behind the token F; the judge (checks/C19.py) takes it when the harness reports that no
+     injected outcome reached the library, and otherwise judges this operation and the rest of the case by
+     the order-independent reading of the text (fs_text_judge).  Which call fails and what is left behind
+     then is the model's prediction only (Model mode, compared for correspondence). *)
+  let fin ?(pre = []) ?(post = []) ?(cond = false) st' res =
     (match mode with
      | `Model ->
          let ps = pre @ List.map (fun (k, follow, path) -> k ^ "=" ^ probe st' follow path) post in
          emit (Printf.sprintf "%s | %s | %s | %s" res (snapshot st'.root) (handles_text st')
                  (if ps = [] then "-" else String.concat " " ps))
-     | `Spec -> emit (Printf.sprintf "%s | %s" res (snapshot st'.root)));
+     | `Spec -> emit (Printf.sprintf "%s%s | %s" (if cond then "F " else "") res (snapshot st'.root)));
     st' in
   let e01 e = match e with None -> "1" | Some _ -> "0" in
   let p = bytes_of_hex in
@@ -266,6 +292,8 @@ let fs_op (mode : [`Model | `Spec]) (st : state) toks : state =
   | ["fault"; n] -> fault := Some (nat n); fin st "-"
   | ["purge"; a; r] ->
       let o = !fault in fault := None;
+      let armed = (o <> None) in
+      let o = (match mode with `Spec -> None | `Model -> o) in      (* the Spec line is the fault-free one (token F) *)
       let (s, b) = d_purge_o (unlink_fuel st) o st (p a) (r = "1") in
       let s = (match mode, o, b, plain_class st (p a) with
                | `Spec, None, true, Some (names, c) ->
@@ -273,16 +301,24 @@ let fs_op (mode : [`Model | `Spec]) (st : state) toks : state =
                       ancestor below the current directory that this leaves empty *)
                    { s with root = purged st.root st.cwd names c }
                | _ -> s) in
-      fin ~pre:[now "s" false (p a)] s (b01 b ^ " " ^ b01 (d_exists s (p a)))
+      (* the oracle after the operation: what d_purge_o does, call by call *)
+      let o' = (let ((s1, ok), o1) = d_unlink_o (unlink_fuel st) o st (p a) (r = "1") in
+                if ok then snd (purge_up_o (S (length (p a))) o1 s1 (getDirectoryName (p a))) else o1) in
+      fin ~cond:armed ~pre:[now "s" false (p a); "ff=" ^ b01 (fired o o'); "?"] s (b01 b ^ " " ^ b01 (d_exists s (p a)))
   | ["funlink"; a] -> let (s, b) = f_unlink st (p a) in fin ~pre:[now "s" false (p a)] s (b01 b)
   | ["symlink"; t; a] -> let (s, b) = f_symlink st (p t) (p a) in fin ~post:["d", false, p a] s (b01 b)
   | ["rename"; a; b; fie] ->
       let (s, r) = f_rename st (p a) (p b) (fie = "1") in
       fin ~pre:[now "s" false (p a); now "e" false (p b); "p=" ^ place st (p b)] ~post:["d", false, p b] s (b01 r)
   | ["copy"; a; b; fie] ->
-      let (s, r) = f_copy_o !oracle st (p a) (p b) (fie = "1") in
+      let orc = !oracle in
       oracle := [];
-      fin ~pre:[now "s" true (p a); now "e" true (p b); now "l" false (p b)] ~post:["d", true, p b] s (b01 r)
+      let armed = (orc <> []) in
+      let orc = (match mode with `Spec -> [] | `Model -> orc) in     (* the Spec line is the one without injected outcomes (token F) *)
+      let (s, r) = f_copy_o orc st (p a) (p b) (fie = "1") in
+      fin ~cond:armed
+        ~pre:[now "s" true (p a); now "e" true (p b); now "l" false (p b); Printf.sprintf "x=%d" (copy_used orc st (p a) (p b) (fie = "1"))]
+        ~post:["d", true, p b] s (b01 r)
   | ["exists"; a] -> fin ~pre:[now "s" true (p a)] st (b01 (d_exists st (p a)))
   | ["create"; a] ->
       let (s, b) = d_create (create_fuel (p a)) st (p a) in
@@ -290,10 +326,12 @@ let fs_op (mode : [`Model | `Spec]) (st : state) toks : state =
       fin ~post:["d", true, p a] s (b01 b ^ " " ^ b01 (d_exists s (p a)))
   | ["dunlink"; a; r] ->
       let o = !fault in fault := None;
-      let (s, b) = (match o with
-                    | None -> d_unlink (unlink_fuel st) st (p a) (r = "1")
-                    | Some _ -> let ((s, b), _) = d_unlink_o (unlink_fuel st) o st (p a) (r = "1") in (s, b)) in
-      fin ~pre:[now "s" false (p a)] s (b01 b ^ " " ^ b01 (d_exists s (p a)))
+      let armed = (o <> None) in
+      let o = (match mode with `Spec -> None | `Model -> o) in      (* the Spec line is the fault-free one (token F) *)
+      let ((s, b), o') = (match o with
+                          | None -> (d_unlink (unlink_fuel st) st (p a) (r = "1"), None)
+                          | Some _ -> d_unlink_o (unlink_fuel st) o st (p a) (r = "1")) in
+      fin ~cond:armed ~pre:[now "s" false (p a); "ff=" ^ b01 (fired o o'); "?"] s (b01 b ^ " " ^ b01 (d_exists s (p a)))
   | _ -> failwith ("bad op: " ^ String.concat " " toks)
 
 let () =
